@@ -668,7 +668,7 @@ Lemma coa_admission_head_thm :
                 (- window cfg <= now - Z.of_N (event_ts (p_attrs p)) <= window cfg)%Z).
 Proof.
   intros md5raw cfg now src bus raw e He.
-  destruct (coa_admission_gen md5raw false true false cfg now src bus raw e He) as (cl & c & p & H).
+  destruct (coa_admission_gen md5raw false true true cfg now src bus raw e He) as (cl & c & p & H).
   exists cl, c, p. intuition. apply window_ok_spec. assumption.
 Qed.
 
